@@ -1,6 +1,7 @@
 (* C07 — Received events per stream follow the HTTP message grammar for the role. *)
 From H2 Require Import Base.Prelude Model.FsmTypes Gen.Tables Model.Types Model.StreamFSM Model.Headers Model.Stream
   Proofs.FsmReach Proofs.C0708Proofs.
+From H2 Require Import Base.PyDict Model.ConnState Model.Connection Proofs.RoleOpen.
 
 (* After ANY sequence of inputs to a stream state machine (any length, accepted or refused, local or from the peer), the state
    it is in satisfies all of:
@@ -29,6 +30,14 @@ Example C07_example : In (run_inputs sm_new [SI_RECV_HEADERS; SI_RECV_DATA; SI_R
   sm_state (run_inputs sm_new [SI_RECV_HEADERS; SI_RECV_DATA; SI_RECV_HEADERS; SI_RECV_END_STREAM]) = S_HALF_CLOSED_REMOTE.
 Proof. split; [apply reachable_from_new | reflexivity]. Qed.
 
+(* A client never takes a HEADERS frame for a request (fix 09dbf89): in EVERY state of a client connection, a HEADERS
+   frame that is accepted was for a stream already in the stream table (one the client opened, or one the server
+   promised); a frame that would open a stream is refused. *)
+Theorem C07_a_client_accepts_headers_only_on_known_streams :
+  forall sid es p d c c' x, client c = true -> recv_headers sid es p d c = (c', Ok x) -> dmem sid (c_streams c) = true.
+Proof. exact client_recv_headers_ok_known. Qed.
+
 Print Assumptions C07_event_grammar_after_any_history.
 Print Assumptions C07_header_events_link_to_later_events.
 Print Assumptions C07_data_events_link_to_later_events.
+Print Assumptions C07_a_client_accepts_headers_only_on_known_streams.
